@@ -129,6 +129,15 @@ def run(ctx):
     for style in STYLES:
         SC.math_of_int_lane(ctx, ctx.rng("mathint" + style), make_select(style, lambda x: x),
                             findings.sqla_semantic_triggers, profile=clean)
+        if style == STYLES[ctx.shard % len(STYLES)]:
+            SC.bracket_string_lane(ctx, ctx.rng("brackets" + style), make_select(style, lambda x: x),
+                                   findings.sqla_semantic_triggers, profile=clean)
+        SC.grouping_grid_lane(ctx, ctx.rng("grid" + style), make_select(style, lambda x: x),
+                              findings.sqla_semantic_triggers, profile=clean)
+        SC.spelling_twin_lane(ctx, ctx.rng("twin" + style), make_select(style, lambda x: x),
+                              findings.sqla_semantic_triggers, profile=clean)
+        SC.neg_stack_lane(ctx, ctx.rng("negstack" + style), make_select(style, lambda x: x),
+                          findings.sqla_semantic_triggers, profile=clean, depth=ctx.pick(6, 10))
         SC.big_list_lane(ctx, ctx.rng("biglist" + style), make_select(style, lambda x: x),
                          findings.sqla_semantic_triggers, ctx.pick(2, 20), profile=clean)
         SC.machine_lane(ctx, ctx.rng("machine" + style), make_select(style, lambda x: x),
